@@ -371,6 +371,82 @@ def correspond(ctx: Ctx) -> None:
     run_roundtrips(ctx, bad, "malformed")
 
 
+# ----------------------------------------------------------------------------- a read that fails
+
+
+def snapshot(k) -> tuple:
+    """everything a network holds, by value"""
+    return (int(k.n_minima), int(k.n_ts),
+            tuple(sorted((int(i), np.asarray(d["coords"], dtype=float).tobytes(), np.asarray(d["coords"]).shape,
+                          float(d["energy"])) for i, d in k.G.nodes(data=True))),
+            tuple(sorted((min(int(u), int(v)), max(int(u), int(v)), np.asarray(d["coords"], dtype=float).tobytes(),
+                          float(d["energy"])) for u, v, d in k.G.edges(data=True))),
+            tuple(map(tuple, np.asarray(k.pairlist, dtype=int).reshape(-1, 2).tolist())))
+
+
+def failed_read_case(rng, missing: str | None = None, into_fresh: bool | None = None):
+    """A restart that meets an incomplete checkpoint (one of the five tables missing — `dump_network` writes them one
+    after the other, the shipped restart example keeps its history under another name): `read_network` raises, the
+    caller catches the error and carries on with the same object — with what it held (an explored network), or, for
+    a fresh object, by falling back to an older checkpoint.  Returns (what went wrong | None, replay data, the object
+    after the whole sequence, the spec it must now equal)."""
+    na, nb = rng.choice([2, 3, 4, 6]), rng.choice([1, 2, 3, 5])
+    def net(n):
+        allp = [(u, v) for u in range(n) for v in range(u, n)]
+        return spec_network(rng, n, rng.sample(allp, min(len(allp), rng.choice([1, 2, 3]))), 2,
+                            [(rng.randrange(n), rng.randrange(n)) for _ in range(rng.choice([1, 2, 4]))])
+    spec_a, spec_b = net(na), net(nb)
+    missing = missing or rng.choice(TABLE_FILES)
+    into_fresh = rng.random() < 0.5 if into_fresh is None else into_fresh
+    rep = {"failed_read": {"a": to_hex(spec_a), "b": to_hex(spec_b), "missing": missing, "into_fresh": into_fresh}}
+    return failed_read_run(spec_a, spec_b, missing, into_fresh) + (rep,)
+
+
+def failed_read_run(spec_a: dict, spec_b: dict, missing: str, into_fresh: bool):
+    ka, kb = build(spec_a), build(spec_b)
+    ka.dump_network(".latest")
+    kb.dump_network(".previous")
+    os.remove(missing + ".latest")
+    try:
+        k = K() if into_fresh else build(spec_b)
+        before = snapshot(k)
+        raised = None
+        try:
+            with warnings.catch_warnings():
+                warnings.simplefilter("ignore")
+                k.read_network(text_string=".latest")
+        except Exception as e:  # noqa: BLE001
+            raised = type(e).__name__
+        if raised is None:
+            return (f"read_network accepted a checkpoint without its {missing} table", k, spec_b)
+        if snapshot(k) != before:
+            after = snapshot(k)
+            return (f"read_network raised {raised} on a checkpoint whose {missing} table is missing, but the object is no "
+                    f"longer what it was: n_minima {before[0]} -> {after[0]}, n_ts {before[1]} -> {after[1]}, minima held in "
+                    f"the graph {len(before[2])} -> {len(after[2])}, transition states {len(before[3])} -> {len(after[3])}, "
+                    f"history rows {len(before[4])} -> {len(after[4])}", k, spec_b)
+        if into_fresh:
+            k.read_network(text_string=".previous")            # the fallback of the restart script
+            want = build(spec_b)
+            got, ref = snapshot(k), snapshot(want)
+            # energies are written with five decimals: compare the rest exactly, energies to that rounding
+            same = got[0] == ref[0] and got[1] == ref[1] and got[4] == ref[4] and \
+                [x[:3] for x in got[2]] == [x[:3] for x in ref[2]] and [x[:3] for x in got[3]] == [x[:3] for x in ref[3]] and \
+                all(abs(a[3] - b[3]) <= 5.0000001e-6 for a, b in zip(got[2], ref[2])) and \
+                all(abs(a[3] - b[3]) <= 5.0000001e-6 for a, b in zip(got[3], ref[3]))
+            if not same:
+                return (f"after a refused read of an incomplete checkpoint ({missing} missing, {raised}) the fallback read of "
+                        f"the older checkpoint gives n_minima {got[0]}, n_ts {got[1]}, {len(got[2])} minima and {len(got[3])} "
+                        f"transition states in the graph; the checkpoint holds {ref[0]} minima and {ref[1]} transition states",
+                        k, spec_b)
+        return (None, k, spec_b)
+    finally:
+        for f in TABLE_FILES:
+            for sfx in (".latest", ".previous"):
+                if os.path.exists(f + sfx):
+                    os.remove(f + sfx)
+
+
 # ----------------------------------------------------------------------------- direct predicates
 
 
@@ -444,6 +520,14 @@ def predicates(ctx: Ctx) -> None:
             ctx.stats.case({"stream": "predicate-corpus-suffix", "name": name, "suffix": suffix}, True)
             if r:
                 ctx.fail(r[0], r[1], {"spec": to_hex(spec), "suffix": suffix, "path": ""})
+    # an incomplete checkpoint is refused as a whole; what is read next (the older checkpoint) is reproduced
+    for i in range(ctx.scale(10, 60)):
+        why, _k, _spec, rep = failed_read_case(rng, missing=TABLE_FILES[i % 5] if i < 10 else None, into_fresh=(i % 2 == 0) if i < 10 else None)
+        ctx.stats.case({"stream": "predicate-failed-read", "missing": rep["failed_read"]["missing"],
+                        "into_fresh": rep["failed_read"]["into_fresh"]}, True)
+        if why:
+            ctx.fail("roundtrip:after-refused-read", why, rep)
+            break
     count = ctx.scale(60, 400) * (5 if getattr(ctx, "deep_search", False) else 1)
     for i in range(count):
         n = rng.choice([1, 1, 2, 2, 3, 4, 6, 9])
@@ -471,6 +555,12 @@ def predicates(ctx: Ctx) -> None:
 
 
 def replay(ctx: Ctx, data: dict) -> bool:
+    if "failed_read" in data:
+        d = data["failed_read"]
+        why = failed_read_run(from_hex(d["a"]), from_hex(d["b"]), d["missing"], d["into_fresh"])[0]
+        if why:
+            print(f"  roundtrip:after-refused-read: {why}")
+        return why is None
     if "spec" not in data:
         c2 = Ctx(PROP, ctx.tier, int(data.get("seed", 0)))
         c2.scratch = ctx.scratch
